@@ -323,3 +323,85 @@ End Net.
 
 Arguments ZV {K}. Arguments YI {K}.
 Arguments Build_branch {K}. Arguments Build_network {K}.
+Arguments ename {K}.
+Arguments ekind {K}.
+Arguments eY {K}.
+Arguments eI {K}.
+Arguments eZ {K}.
+Arguments eV {K}.
+Arguments nz {K}.
+Arguments isz {K}.
+Arguments num {K}.
+Arguments is_voltage_source {K}.
+Arguments is_current_source {K}.
+Arguments is_ideal_voltage_source {K}.
+Arguments is_ideal_current_source {K}.
+Arguments is_active {K}.
+Arguments is_short_circuit {K}.
+Arguments is_open_circuit {K}.
+Arguments impedance {K}.
+Arguments admittance {K}.
+Arguments resistor {K}.
+Arguments conductor {K}.
+Arguments voltage_source {K}.
+Arguments current_source {K}.
+Arguments open_circuit {K}.
+Arguments short_circuit {K}.
+Arguments load_v {K}.
+Arguments load_i {K}.
+Arguments bid {K}.
+Arguments branch_ids {K}.
+Arguments node_labels {K}.
+Arguments validate {K}.
+Arguments get_branch {K}.
+Arguments connected {K}.
+Arguments between {K}.
+Arguments node_index {K}.
+Arguments cs_index {K}.
+Arguments vs_index {K}.
+Arguments source_index {K}.
+Arguments finY {K}.
+Arguments has_finY {K}.
+Arguments admittance_connected_to {K}.
+Arguments admittance_between {K}.
+Arguments y_branches {K}.
+Arguments Yent {K}.
+Arguments dir_of {K}.
+Arguments Bent {K}.
+Arguments Qent {K}.
+Arguments opt0 {K}.
+Arguments branch_I {K}.
+Arguments branch_V {K}.
+Arguments mna_matrix {K}.
+Arguments mna_rhs {K}.
+Arguments assemble_check {K}.
+Arguments row_scale {K}.
+Arguments row_sub {K}.
+Arguments entry {K}.
+Arguments find_pivot {K}.
+Arguments eliminate {K}.
+Arguments gauss_jordan {K}.
+Arguments mat_vec {K}.
+Arguments vec_eqb {K}.
+Arguments solve {K}.
+Arguments unit_vec {K}.
+Arguments ident {K}.
+Arguments col {K}.
+Arguments transpose {K}.
+Arguments mat_mul {K}.
+Arguments mat_eqb {K}.
+Arguments inverse {K}.
+Arguments solve_network {K}.
+Arguments get_potential {K}.
+Arguments get_voltage {K}.
+Arguments get_current {K}.
+Arguments get_power {K}.
+Arguments is_linear_source {K}.
+Arguments node1 {K}.
+Arguments node2 {K}.
+Arguments el {K}.
+Arguments branches {K}.
+Arguments zero {K}.
+Arguments s_net {K}.
+Arguments s_x {K}.
+Arguments Build_solution {K}.
